@@ -2,6 +2,7 @@
 package main
 
 import (
+	"bytes"
 	"net"
 	"reflect"
 	"strings"
@@ -554,6 +555,40 @@ func run(r *Rng, tier string, n int) {
 					m2.Answer, m2.Ns, m2.Extra = []dns.RR{dns.Copy(rr)}, []dns.RR{dns.Copy(rr)}, []dns.RR{dns.Copy(rr)}
 					checkLen(m2, true, false, "one-record-per-section")
 					st["lone_record_messages"]++
+				}
+			}
+		}
+		// APL prefixes of EVERY length (0..32, 0..128) over addresses with all bits set under the mask, negated or
+		// not; AMTRELAY with every gateway kind with and without the discovery bit
+		{
+			var recs []dns.RR
+			for _, bits := range []int{32, 128} {
+				for p := 0; p <= bits; p++ {
+					ip := bytes.Repeat([]byte{0xff}, bits/8)
+					mask := net.CIDRMask(p, bits)
+					for i := range ip {
+						ip[i] &= mask[i]
+					}
+					recs = append(recs, &dns.APL{Hdr: h(dns.TypeAPL), Prefixes: []dns.APLPrefix{{Negation: p%2 == 1, Network: net.IPNet{IP: ip, Mask: mask}}}})
+				}
+			}
+			for _, d := range []uint8{0, 0x80} {
+				recs = append(recs,
+					&dns.AMTRELAY{Hdr: h(dns.TypeAMTRELAY), Precedence: 1, GatewayType: d | 0},
+					&dns.AMTRELAY{Hdr: h(dns.TypeAMTRELAY), Precedence: 1, GatewayType: d | 1, GatewayAddr: net.IPv4(192, 0, 2, 1).To4()},
+					&dns.AMTRELAY{Hdr: h(dns.TypeAMTRELAY), Precedence: 1, GatewayType: d | 2, GatewayAddr: net.ParseIP("2001:db8::15")},
+					&dns.AMTRELAY{Hdr: h(dns.TypeAMTRELAY), Precedence: 1, GatewayType: d | 3, GatewayHost: "relay.example.org."})
+			}
+			for i := 0; i < len(recs); i += 6 {
+				for _, compress := range []bool{true, false} {
+					m := new(dns.Msg)
+					m.Compress = compress
+					m.SetQuestion("example.org.", dns.TypeAPL)
+					for j := i; j < i+6 && j < len(recs); j++ {
+						m.Answer = append(m.Answer, dns.Copy(recs[j]), dns.Copy(recs[j]))
+					}
+					checkLen(m, false, false, "apl-amtrelay-corners")
+					st["apl_amtrelay_messages"]++
 				}
 			}
 		}
